@@ -767,3 +767,59 @@ theorem setElt_ok {a : Arr} {vs : List Elt} (L : Log) (i : Nat) (v : Elt) (h : R
   rw [e2] at this; exact this
 
 end C26
+
+namespace C26
+
+/-! ## push_back(T&&) with a temporary or with `std::move(a[i])` -/
+
+theorem pushBackMove_ext (mx : Nat) (a : Arr) (L : Log) (v : Elt) :
+    pushBackMove mx a L (.ext v) = pushBack mx a L (.ext v) := by
+  unfold pushBackMove pushBack
+  by_cases h : a.cap = a.size
+  · rw [if_pos h, if_pos h]
+    cases growAtEnd mx a L 1 with
+    | none => rfl
+    | some t => obtain ⟨a', L'⟩ := t; rfl
+  · rw [if_neg h, if_neg h]; rfl
+
+/-- moving out of element `i` leaves a live moved-from object there -/
+theorem rep_moveOut {a : Arr} {vs : List Elt} (L : Log) {i : Nat} (h : Rep a vs) (hi : i < vs.length) :
+    moveOut a.cells L i = (vs[i], a.cells.set i (some movedVal), L) ∧
+    Rep ⟨a.cells.set i (some movedVal), a.size⟩ (vs.set i movedVal) := by
+  have hle := h.le
+  refine ⟨moveOut_live L (h.live hi), ?_⟩
+  have hp := Rep.of_pointwise (a := ⟨a.cells.set i (some movedVal), a.size⟩) (vs := vs.set i movedVal)
+    a.cells.length (by simp [h.size]) (by simp; omega) (by
+      intro j
+      show (a.cells.set i (some movedVal))[j]? = _
+      rw [getElem?_set_in _ (by omega), h.cells j]
+      unfold cellAt
+      simp only [List.length_set, List.getElem?_set]
+      pw_close)
+  exact hp.1
+
+theorem pushBackMove_slot_ok {mx : Nat} {a : Arr} {vs : List Elt} (L : Log) (i : Nat) (h : Rep a vs)
+    (hi : i < vs.length) (hroom : a.cap ≠ a.size) :
+    StepOK a L (pushBackMove mx a L (.slot i)) (vs.set i movedVal ++ [vs.getD i deadVal]) := by
+  have hs := h.size
+  have hle := h.le
+  obtain ⟨m1, m2⟩ := rep_moveOut L h hi
+  have hv : vs.getD i deadVal = vs[i] := by
+    simp [List.getD_eq_getElem?_getD, List.getElem?_eq_getElem hi]
+  unfold pushBackMove
+  rw [if_neg hroom]
+  simp only [Ref.inPlace, moveRef]
+  rw [m1, hv]
+  simp only []
+  have hlt : vs.length < a.cells.length := by unfold Arr.cap at hroom; omega
+  have hraw : (a.cells.set i (some movedVal))[a.size]? = some none := by
+    have := m2.raw (j := a.size) (by simp; omega) (by show a.size < (a.cells.set i (some movedVal)).length; simp; omega)
+    exact this
+  rw [construct_raw L vs[i] hraw]
+  have e := append_fill L [vs[i]] m2 (by simp; omega)
+  simp only [copyConstructList, List.length_singleton] at e
+  rw [construct_raw L vs[i] hraw] at e
+  obtain ⟨f1, _, _⟩ := e
+  exact ⟨f1, rfl, by simp only [Log.adv_ctor, Log.adv_dtor]; show _ = _ + (a.size + 1) + _; omega, rfl⟩
+
+end C26
